@@ -5,7 +5,10 @@ pid=sys.argv[1]
 for l in open('/verif/properties.jsonl'):
     p=json.loads(l)
     if p['id']==pid: break
+import os
+avoid=json.load(open('/verif/tools/seed_avoid.json')).get(pid,[]) if os.path.exists('/verif/tools/seed_avoid.json') and len(sys.argv)>2 else []
 wt=f"/tmp/seed/{pid}/wt"; out=f"/tmp/seed/{pid}/out"
+AVOID = ("Earlier rounds already used these ideas for this property; choose something DIFFERENT in kind (another function, another mechanism): " + "; ".join(avoid) + ".\n\n") if avoid else ""
 print(f"""You are helping to evaluate a verification framework by mutation seeding. You work ONLY inside the scratch git worktree {wt} (a checkout of the Go library jwhited/corebgp, a BGP implementation: fsm.go, peer.go, server.go, packet.go, update.go ...). Do not read or write anything under /verif or /repo. Write your results to {out}/.
 
 Property of corebgp that is supposed to hold ({pid}: {p['title']}):
@@ -14,7 +17,7 @@ Property of corebgp that is supposed to hold ({pid}: {p['title']}):
 
 Quantified over: {p['quantifier']['text']}
 
-Your task: produce ONE change to the library source (non-test .go files in {wt}) that BREAKS this property, while
+{AVOID}Your task: produce ONE change to the library source (non-test .go files in {wt}) that BREAKS this property, while
  (1) the package still compiles (`go build ./...`, `go vet` not required),
  (2) the existing test suite still passes unedited: `cd {wt} && go test -vet=off -count=1 ./...`,
  (3) the breakage needs something SPECIFIC to manifest — a particular interleaving/timing, a fault at a particular point, a multi-step sequence of operations, an unusual/boundary input, or two cooperating edits that each look fine alone. It must NOT be something ordinary use (a plain session coming up and exchanging messages, the common input) would expose at once. Make it look like a plausible, realistic programming mistake or "refactoring"/"optimisation" a developer could make (off-by-one at a boundary, wrong operator in a rare branch, removed select arm, reordered statements, missing reset, narrowing conversion, etc.), not a deliberately planted `if x == 0xdeadbeef` backdoor.
